@@ -154,7 +154,7 @@ Theorem C14_tokens_partial : forall (T : Type) (sigt : bytes -> option (list T))
                      sigt (a ++ b) = Some (ta ++ tb)) ->
   (forall a ta, sigt a = Some ta -> sigt (a ++ [10]) = Some ta) ->
   sigt [] = Some [] ->
-  (forall ls q, parse_lines ls = Ok q -> sigt (concat (echo q)) = sigt (concat ls)) ->
+  (forall ls q t, parse_lines ls = Ok q -> sigt (concat ls) = Some t -> sigt (concat (echo q)) = Some t) ->
   (forall c, concat (file_lines c) = c) ->
   nl_line = [10] ->
   (forall n, ends_with_nl (header_line n) = true) ->
@@ -184,7 +184,7 @@ Proof. exact (build_code_tokens P parse_lines echo strip walk file_lines check_n
    top-level game loop function definitions) - every embedded package's tokens are its file's tokens,
    minus only what [sstrip] removes unless {use_game_loop=true} was in force when it was loaded *)
 Theorem C14_block_tokens_partial : forall (T : Type) (sigt : bytes -> option (list T)) (sstrip : list T -> list T),
-  (forall ls q, parse_lines ls = Ok q -> sigt (concat (echo q)) = sigt (concat ls)) ->
+  (forall ls q t, parse_lines ls = Ok q -> sigt (concat ls) = Some t -> sigt (concat (echo q)) = Some t) ->
   (forall c, concat (file_lines c) = c) ->
   (forall q q', strip q = Ok q' -> sigt (concat (echo q')) = option_map sstrip (sigt (concat (echo q)))) ->
   forall fuel main_path main_content r pk,
@@ -219,7 +219,7 @@ Theorem C14_tokens_partial_now : forall (T : Type) (sigt : bytes -> option (list
                      sigt (a ++ b) = Some (ta ++ tb)) ->
   (forall a ta, sigt a = Some ta -> sigt (a ++ [10]) = Some ta) ->
   sigt [] = Some [] ->
-  (forall ls q, from_lines ls = Ok q -> sigt (concat (echo_lines q)) = sigt (concat ls)) ->
+  (forall ls q t, from_lines ls = Ok q -> sigt (concat ls) = Some t -> sigt (concat (echo_lines q)) = Some t) ->
   forall cwd fs lua_path fuel main_path main_content out,
   build_code_now cwd fs lua_path fuel main_path main_content = Ok out ->
   exists r pk, build_lua_now cwd fs lua_path fuel main_path main_content = Ok (r, pk) /\
@@ -253,12 +253,12 @@ Proof. exact sig_views_final_lf. Qed.
    constants' side conditions computed: the only remaining hypothesis is the token-faithful echo of
    the lexer model (C06) - and, per package, that its header line and echoed code are in the dialect *)
 Theorem C14_tokens_spec_partial :
-  (forall ls q, from_lines ls = Ok q -> sig_views (concat (echo_lines q)) = sig_views (concat ls)) ->
+  (forall ls q t, from_lines ls = Ok q -> sig_views (concat ls) = Some t -> sig_views (concat (echo_lines q)) = Some t) ->
   forall cwd fs lua_path fuel main_path main_content out,
   build_code_now cwd fs lua_path fuel main_path main_content = Ok out ->
   exists r pk, build_lua_now cwd fs lua_path fuel main_path main_content = Ok (r, pk) /\
-    let toks := toks stok sig_views in
-    let lexes := lexes stok sig_views in
+    let toks := toks (Z * list Z * Z * Z * Z) sig_views in
+    let lexes := lexes (Z * list Z * Z * Z * Z) sig_views in
     (Forall (fun e => lexes (header_line_now (fst e)) /\ lexes (concat (echo_lines (snd e)))) pk ->
      lexes main_content ->
      sig_views out = Some match pk with
